@@ -2,9 +2,9 @@ package main
 
 import (
 	"bytes"
-	"math/big"
 	"context"
 	"fmt"
+	"math/big"
 	"os"
 	"os/exec"
 	"path/filepath"
